@@ -273,6 +273,29 @@ Theorem C15_close_terminates : forall max c k pc (oracle : bool), creachable K_p
     crun K_pinned V1 c tr = Some c' /\ nth_error (closers c') k = Some (K_Done true).
 Proof. exact close_terminates. Qed.
 
+(* ---- "retried later" over the whole connection: whatever has happened to the connection short of closing it (the session
+   dead, the stream or the packet conn closed, any number of failed attempts before), while the collection has not been
+   ended the connect loop's next Collect gets the lock and starts a rendezvous attempt whenever fewer than Max peers are held *)
+Theorem C15_conn_retry_enabled : forall max c, creachable K_pinned V1 max c ->
+  melted (ps c) = false -> col (ps c) = C_Idle ->
+  exists c1 c2, cstep K_pinned V1 c (L_P Col_lock) = Some c1 /\ cstep K_pinned V1 c1 (L_P Col_check) = Some c2 /\
+    sess_dead c2 = sess_dead c /\ closers c2 = closers c /\
+    (length (filter (live (ps c)) (active (ps c))) < max -> col (ps c2) = C_Catching).
+Proof.
+  intros max c R Hm Hc. pose proof (creach_proj _ _ _ _ R) as Rp.
+  destruct (retry_enabled V1 max (ps c) Rp (v1_no_panic max _ Rp) Hm Hc) as (s1 & s2 & S1 & S2 & Hlt & _).
+  cbn [cstep]. rewrite S1. eexists. eexists. split; [reflexivity|]. cbn [cstep ps]. rewrite S2.
+  split; [reflexivity|]. cbn. auto.
+Qed.
+
+Example C15_ex_conn_retry_hyps : exists c, creachable K_pinned V1 2 c /\ melted (ps c) = false /\ col (ps c) = C_Idle /\
+  sess_dead c = true /\ length (live_peers (ps c)) = 1.
+Proof.
+  destruct (crun K_pinned V1 (kinit 2) (map L_P (collect_ok ++ collect_fail) ++ [L_SessDies])) as [c|] eqn:E; [|vm_compute in E; discriminate].
+  exists c. split; [eapply crun_reachable; [apply creach_init|exact E]|].
+  vm_compute in E. inversion E; subst. repeat split.
+Qed.
+
 (* ---- the theorems above depend on End being called unconditionally: a Close that returns when Stream.Close reports
    an error leaves the collection running with a rendezvous in flight *)
 Theorem C15_close_early_return_refuted : exists c, crun K_early V1 (kinit 1) trace_early = Some c /\
